@@ -16,10 +16,13 @@ import (
 	"context"
 	"encoding/json"
 	"fmt"
+	"os"
 	"path/filepath"
+	"runtime"
 	"sort"
 	"strconv"
 	"strings"
+	"time"
 
 	. "gopkg.in/check.v1"
 
@@ -33,6 +36,36 @@ import (
 	"github.com/snapcore/snapd/release"
 	"github.com/snapcore/snapd/snap"
 )
+
+// The binary built by /verif/check is not recognised by osutil.IsTestBinary
+// (argv[0] has no "go-build" component), so snapd's atomic file writes fsync.
+// All files of the fake world (sequence files, cookies, aux store info) are
+// scratch: keep gocheck's temp root on tmpfs. Must happen before the first
+// c.MkDir(), hence init().
+var vScratch string
+
+func init() {
+	if p := os.Getenv("VERIF_PROP"); p != "C12" && p != "C13" {
+		return
+	}
+	base := os.Getenv("VERIF_C1213_SCRATCH")
+	if base == "" {
+		base = "/dev/shm"
+	}
+	d, err := os.MkdirTemp(base, "verif-c1213-")
+	if err != nil {
+		return // fall back to $TMPDIR (slow but correct)
+	}
+	vScratch = d
+	os.Setenv("TMPDIR", d)
+	runtime.MemProfileRate = 0
+}
+
+func vCleanupScratch() {
+	if vScratch != "" {
+		os.RemoveAll(vScratch)
+	}
+}
 
 type verifC1213Suite struct {
 	snapmgrBaseTest
@@ -186,9 +219,11 @@ func (h *vHistory) opMark() int {
 }
 
 // runChange links ts into a change and settles it. state must be locked.
-func (h *vHistory) runChange(kind string, ts *state.TaskSet) *state.Change {
+func (h *vHistory) runChange(kind string, tss ...*state.TaskSet) *state.Change {
 	chg := h.s.state.NewChange(kind, "verif "+kind)
-	chg.AddAll(ts)
+	for _, ts := range tss {
+		chg.AddAll(ts)
+	}
 	h.s.settle(h.c)
 	return chg
 }
@@ -281,6 +316,18 @@ func (h *vHistory) info(name string) vSnapInfo {
 	panic("unknown snap " + name)
 }
 
+// pinOthers makes the fake store offer nothing for every snap but `name`.
+func (h *vHistory) pinOthers(name string) {
+	for _, si := range vSnaps {
+		if si.name == name {
+			continue
+		}
+		if snp := h.snapshot(si.name); snp.Present {
+			h.s.fakeStore.refreshRevnos[si.id] = snap.R(snp.Current)
+		}
+	}
+}
+
 // setInUse programs the mock bootloader with the boot answer of op.InUse.
 func (h *vHistory) setInUse(op *vOp) {
 	vars := map[string]string{"snap_kernel": "", "snap_try_kernel": "", "snap_mode": ""}
@@ -305,7 +352,7 @@ func (h *vHistory) refresh(op *vOp) (done bool) {
 		h.setInUse(op)
 	}
 	var opts *snapstate.RevisionOptions
-	if op.Via == "store" {
+	if op.Via == "store" || op.Via == "all" {
 		h.s.fakeStore.refreshRevnos[si.id] = snap.R(op.Rev)
 	} else {
 		// keep the store's default offer away from real revisions
@@ -313,13 +360,27 @@ func (h *vHistory) refresh(op *vOp) (done bool) {
 		opts = &snapstate.RevisionOptions{Revision: snap.R(op.Rev)}
 	}
 	mark := h.opMark()
-	ts, err := snapstate.Update(st, op.Snap, opts, h.s.user.ID, snapstate.Flags{})
-	if err != nil {
-		op.Result = "error: " + err.Error()
-		h.chk.Count("refresh_request_errors", 1)
-		return false
+	var tss []*state.TaskSet
+	if op.Via == "all" {
+		// refresh-all path (what auto-refresh and `snap refresh` use)
+		h.pinOthers(op.Snap)
+		names, l, err := snapstate.UpdateMany(context.Background(), st, nil, nil, h.s.user.ID, &snapstate.Flags{})
+		if err != nil || len(names) != 1 || names[0] != op.Snap {
+			op.Result = fmt.Sprintf("error: refresh-all gave %v, %v", names, err)
+			h.chk.Count("refresh_request_errors", 1)
+			return false
+		}
+		tss = l
+	} else {
+		ts, err := snapstate.Update(st, op.Snap, opts, h.s.user.ID, snapstate.Flags{})
+		if err != nil {
+			op.Result = "error: " + err.Error()
+			h.chk.Count("refresh_request_errors", 1)
+			return false
+		}
+		tss = []*state.TaskSet{ts}
 	}
-	chg := h.runChange("refresh-snap", ts)
+	chg := h.runChange("refresh-snap", tss...)
 	op.Result = chg.Status().String()
 	after := h.snapshot(op.Snap)
 	op.SeqAfter, op.CurAfter = after.Seq, after.Current
@@ -669,16 +730,20 @@ func (h *vHistory) judgeBlock(op *vOp, after vSnapshot, oldCur int, w func(map[s
 	}
 }
 
-// probe asks the real refresh path whether a revision is a refresh candidate:
-// the fake store offers exactly `rev` and honours the block list snapd sends.
+// probe asks the real refresh-all path (UpdateMany without names: what
+// auto-refresh and a plain `snap refresh` use; a refresh of one named snap
+// deliberately ignores the block list) whether a revision is a refresh
+// candidate: the fake store offers exactly `rev` for the snap and honours the
+// block list snapd sends along.
 func (h *vHistory) probe(op *vOp, expectBlocked bool) {
 	st := h.s.state
 	chk := h.chk
 	si := h.info(op.Snap)
 	before := h.snapshot(op.Snap)
+	h.pinOthers(op.Snap)
 	h.s.fakeStore.refreshRevnos[si.id] = snap.R(op.Rev)
 	mark := h.opMark()
-	ts, err := snapstate.Update(st, op.Snap, nil, h.s.user.ID, snapstate.Flags{})
+	names, tss, err := snapstate.UpdateMany(context.Background(), st, nil, nil, h.s.user.ID, &snapstate.Flags{})
 	ops := h.opsSince(mark)
 	chk.Eval()
 	// what snapd told the store
@@ -700,38 +765,44 @@ func (h *vHistory) probe(op *vOp, expectBlocked bool) {
 	if sawReq {
 		chk.Count("store_requests_observed", 1)
 	}
+	candidate := false
+	for _, n := range names {
+		if n == op.Snap {
+			candidate = true
+		}
+	}
 	w := func() map[string]interface{} {
 		return h.witness(op, map[string]interface{}{"seq": before.Seq, "current": before.Current, "block": before.Block,
-			"block_sent_to_store": sent, "offered": op.Rev})
+			"block_sent_to_store": sent, "offered": op.Rev, "updated": names, "error": fmt.Sprint(err)})
 	}
 	if expectBlocked {
 		chk.Count("probes_blocked_revision_offered", 1)
 		chk.Nontrivial(kit.Sig("probe-blocked", len(before.Seq), before.index(before.Current), before.index(op.Rev)))
-		if err == nil {
-			op.Result = "ACCEPTED (offered revision must not be a refresh candidate)"
+		if candidate {
+			op.Result = "CANDIDATE (offered revision must not be a refresh candidate)"
 			chk.Violation("C13:blocked-revision-is-refresh-candidate", w())
 			h.dead = true
-			_ = ts
 			return
 		}
-		op.Result = "no-update: " + err.Error()
-		if sawReq && !vContains(sent, op.Rev) {
+		op.Result = fmt.Sprintf("no-update (%v)", err)
+		if !sawReq {
+			chk.Count("probes_without_store_request", 1)
+		} else if !vContains(sent, op.Rev) {
 			chk.Violation("C13:blocked-revision-not-sent-to-store", w())
 		}
-		after := h.snapshot(op.Snap)
-		if after.Raw != before.Raw {
+		if after := h.snapshot(op.Snap); after.Raw != before.Raw {
 			chk.Count("probe_changed_state", 1)
 		}
 		return
 	}
 	chk.Count("probes_notblocked_revision_offered", 1)
 	chk.Nontrivial(kit.Sig("probe-unblocked", len(before.Seq), before.index(before.Current), before.index(op.Rev)))
-	if err != nil {
-		op.Result = "error: " + err.Error()
+	if err != nil || !candidate {
+		op.Result = fmt.Sprintf("no-update (%v)", err)
 		chk.Violation("C13:notblocked-revision-still-excluded", w())
 		return
 	}
-	chg := h.runChange("refresh-snap", ts)
+	chg := h.runChange("refresh-snap", tss...)
 	op.Result = chg.Status().String()
 	after := h.snapshot(op.Snap)
 	op.SeqAfter, op.CurAfter = after.Seq, after.Current
@@ -811,6 +882,11 @@ func (h *vHistory) newRev(rnd vRand, seq []int) int {
 func (h *vHistory) do(op *vOp, f func()) {
 	h.ops = append(h.ops, op)
 	f()
+	// drop finished changes (count-based, as the overlord's pruning does when
+	// there are too many): every state checkpoint serialises all of them, which
+	// makes long histories quadratic
+	const never = 100 * 365 * 24 * time.Hour
+	h.s.state.Prune(time.Now(), never, never, 0)
 }
 
 func (h *vHistory) genInUse(rnd vRand, snp vSnapshot) []int {
@@ -872,8 +948,11 @@ func (h *vHistory) step(rnd vRand, forceGrow bool) {
 	switch {
 	case x < p.wRefreshNew:
 		op := &vOp{Kind: "refresh", Snap: si.name, Rev: h.newRev(rnd, snp.Seq), Via: "store"}
-		if rnd.Intn(3) == 0 {
+		switch rnd.Intn(4) {
+		case 0:
 			op.Via = "revision"
+		case 1:
+			op.Via = "all"
 		}
 		if si.kernel {
 			op.InUse = h.genInUse(rnd, snp)
@@ -1014,9 +1093,15 @@ func (s *verifC1213Suite) runHistories(c *C, chk *kit.Check, prof *vProfile, n i
 		s.state.Lock()
 		if withKernel {
 			// the model's kernel snap, boot participant on this (UC16) model
-			kinfo, err := snap.InfoFromSnapYaml([]byte("name: kernel\ntype: kernel\nversion: kernelVer\n"))
-			c.Assert(err, IsNil)
-			s.fakeBackend.infos = map[string]*snap.Info{"kernel": kinfo}
+			// (fakeSnappyBackend.infos hands out one shared *snap.Info whose
+			// SideInfo is overwritten by every call, so it is not used here)
+			s.AddCleanup(snapstate.MockSnapReadInfo(func(name string, si *snap.SideInfo) (*snap.Info, error) {
+				info, err := s.fakeBackend.ReadInfo(name, si)
+				if err == nil && name == "kernel" {
+					info.SnapType = snap.TypeKernel
+				}
+				return info, err
+			}))
 			r0 := 1 + rnd.Intn(40)
 			if r0 == 11 {
 				r0 = 12
@@ -1038,7 +1123,7 @@ func (s *verifC1213Suite) runHistories(c *C, chk *kit.Check, prof *vProfile, n i
 		} else {
 			chk.Count("histories_on_core", 1)
 		}
-		nops := 14 + rnd.Intn(14)
+		nops := 12 + rnd.Intn(14)
 		grow := 0
 		if prof.prop == "C12" && rnd.Intn(4) == 0 {
 			// long sequences: a high retain, many refreshes, then a lowered retain
@@ -1069,42 +1154,44 @@ func vAssumptions(chk *kit.Check) {
 }
 
 func (s *verifC1213Suite) TestVerifC12(c *C) {
+	defer vCleanupScratch()
 	chk := kit.New("C12", "exploration")
 	defer chk.Done(c)
 	chk.Rule("cases are settled refreshes inside generated histories (install, refresh to a new revision via the store or by revision, refresh to a kept revision, revert/revert-to leaving later revisions, refresh.retain rewritten between refreshes as unset / int 2..20 / legacy string, on classic and on core defaults; every 4th history drives the model's kernel snap with a generated boot in-use answer in the mock bootloader). A refresh is non-trivial when the garbage collection had something to decide (sequence at the limit, revert leftovers, boot answer, or discards observed); distinct = distinct (target kept?, target index, retain, retain kind, sequence length, current index, #discards, in-use positions, classic?, via)")
 	vAssumptions(chk)
 	chk.Assume("boot in-use answers are produced by programming snap_kernel / snap_try_kernel of the mock bootloader before a kernel refresh; they may name any kept revision (current, older, a revert leftover) or a revision that is not kept")
 	prof := &vProfile{prop: "C12", wRefreshNew: 42, wRefreshKept: 14, wRevert: 10, wRevertTo: 10, wBadRevert: 0, wRetain: 20, wToggle: 0, wProbe: 0, kernelEvery: 4}
-	s.runHistories(c, chk, prof, kit.Scale(60, 260))
-	chk.Floor("refreshes_to_new", 100)
-	chk.Floor("refreshes_to_kept", 20)
-	chk.Floor("discards_observed", 50)
-	chk.Floor("refreshes_with_revert_leftovers", 10)
-	chk.Floor("refresh_retain_int", 20)
-	chk.Floor("refresh_retain_string", 10)
-	chk.Floor("refresh_retain_unset", 5)
-	chk.Floor("refreshes_with_boot_in_use_answer", 10)
-	chk.MinDistinct(50)
+	s.runHistories(c, chk, prof, kit.Scale(14, 60))
+	chk.Floor("refreshes_to_new", 60)
+	chk.Floor("refreshes_to_kept", 10)
+	chk.Floor("discards_observed", 30)
+	chk.Floor("refreshes_with_revert_leftovers", 5)
+	chk.Floor("refresh_retain_int", 10)
+	chk.Floor("refresh_retain_string", 5)
+	chk.Floor("refresh_retain_unset", 3)
+	chk.Floor("refreshes_with_boot_in_use_answer", 5)
+	chk.MinDistinct(25)
 	s.noFailedChanges(chk)
 }
 
 func (s *verifC1213Suite) TestVerifC13(c *C) {
+	defer vCleanupScratch()
 	chk := kit.New("C13", "exploration")
 	defer chk.Done(c)
 	chk.Rule("cases are revert requests (Revert and RevertToRevision to earlier and later kept revisions, default / NotBlocked / devmode flags, and requests the statement says must fail: revision not kept, already current, no previous revision, snap disabled) inside generated histories of installs, refreshes to new and kept revisions, earlier reverts, disable/enable and retain changes, plus refresh-candidate probes through the real Update path (the fake store offers a blocked resp. not-blocked revision and honours the block list snapd sends). Every request is a case; distinct = distinct (kind, sequence length, current index, target index, flags, |Block()|) resp. (reject reason, kind, length, index)")
 	vAssumptions(chk)
 	chk.Assume("a revision whose own last revert-away was requested NotBlocked and that has not been refreshed to since is exempt from the must-be-blocked claim of later default reverts (the statement's 'unless the revert was requested as not blocking them' is read per reverted-from revision); entries of Block() that are not later revisions are counted, not judged")
-	prof := &vProfile{prop: "C13", wRefreshNew: 24, wRefreshKept: 8, wRevert: 20, wRevertTo: 20, wBadRevert: 8, wRetain: 5, wToggle: 6, wProbe: 9, kernelEvery: 0}
-	s.runHistories(c, chk, prof, kit.Scale(60, 260))
-	chk.Floor("reverts_ok", 100)
-	chk.Floor("reverts_ok_not_blocked", 20)
-	chk.Floor("reverts_rejected_not-kept", 5)
-	chk.Floor("reverts_rejected_is-current", 5)
-	chk.Floor("reverts_rejected_inactive", 5)
-	chk.Floor("block_checks_with_revisions_to_block", 50)
-	chk.Floor("probes_blocked_revision_offered", 10)
-	chk.Floor("probes_notblocked_revision_offered", 3)
-	chk.MinDistinct(50)
+	prof := &vProfile{prop: "C13", wRefreshNew: 24, wRefreshKept: 8, wRevert: 20, wRevertTo: 20, wBadRevert: 10, wRetain: 5, wToggle: 7, wProbe: 9, kernelEvery: 0}
+	s.runHistories(c, chk, prof, kit.Scale(30, 120))
+	chk.Floor("reverts_ok", 30)
+	chk.Floor("reverts_ok_not_blocked", 8)
+	chk.Floor("reverts_rejected_not-kept", 2)
+	chk.Floor("reverts_rejected_is-current", 2)
+	chk.Floor("reverts_rejected_inactive", 2)
+	chk.Floor("block_checks_with_revisions_to_block", 15)
+	chk.Floor("probes_blocked_revision_offered", 4)
+	chk.Floor("probes_notblocked_revision_offered", 1)
+	chk.MinDistinct(25)
 	s.noFailedChanges(chk)
 }
 
